@@ -61,6 +61,8 @@ type stubDialector struct {
 	returning bool
 	reversed  bool
 	binds     *[]bindRec
+	// nullDefault: a column left to the database is written as NULL (SQLite style) instead of DEFAULT
+	nullDefault bool
 }
 
 func (stubDialector) Name() string { return "stub" }
@@ -76,7 +78,10 @@ func (d stubDialector) Initialize(db *gorm.DB) error {
 }
 func (stubDialector) Migrator(*gorm.DB) gorm.Migrator { return nil }
 func (stubDialector) DataTypeOf(*schema.Field) string { return "" }
-func (stubDialector) DefaultValueOf(*schema.Field) clause.Expression {
+func (d stubDialector) DefaultValueOf(*schema.Field) clause.Expression {
+	if d.nullDefault {
+		return clause.Expr{SQL: "NULL"}
+	}
 	return clause.Expr{SQL: "DEFAULT"}
 }
 func (d stubDialector) BindVarTo(w clause.Writer, stmt *gorm.Statement, v interface{}) {
